@@ -43,6 +43,8 @@ class PyModel:
     def __init__(self, pkg: M.Package, yardl_bin: str, workroot: str, want_cpp=False, cpp_opts=None):
         self.pkg = pkg
         self.env = M.Env(pkg)
+        self._usable = None
+        self.unusable = []
         self.dir = tempfile.mkdtemp(prefix="model-", dir=workroot)
         targets = {"python": {"outputDir": "../out/python"}}
         if want_cpp:
@@ -79,7 +81,39 @@ class PyModel:
         shutil.rmtree(self.dir, ignore_errors=True)
 
     def protocols(self):
-        return [d for d in self.pkg.defs() if isinstance(d, M.Protocol)]
+        """Protocols whose generated Python is usable at all.  Generated code that imports but whose
+        serializer/converter tables reference undefined names (NameError / AttributeError on a class /
+        ImportError when first used) is a code-generation defect of the kind property C08 covers (not
+        claimed); such protocols are discarded and counted, like packages that do not import."""
+        if self._usable is None:
+            from gen import values as V, refcodec as R
+            self._usable, self.unusable = [], []
+            codec = R.Codec(self.env)
+            for d in self.pkg.defs():
+                if not isinstance(d, M.Protocol):
+                    continue
+                rng = M.derive(12345, "smoke", d.name)
+                vg = V.ValueGen(self.env, rng, finite_only=True, json_safe=True)
+                vals = []
+                for name, t, stream in d.steps:
+                    qt = M.qualify(t, self.pkg.namespace)
+                    vals.append([vg.gen(qt)] if stream else vg.gen(qt))
+                why = None
+                try:
+                    data = codec.encode_stream(d, self.pkg.namespace, self.schema(d), vals)
+                    for fmt in ("binary", "ndjson"):
+                        out, err = relay(self, d, "binary", io.BytesIO(data), fmt)
+                        if isinstance(err, (NameError, ImportError)) or (isinstance(err, AttributeError) and "has no attribute" in str(err) and "type object" in str(err)) \
+                                or (isinstance(err, TypeError) and "TypeVar" in str(err)):
+                            why = repr(err)
+                            break
+                except (NameError, ImportError, AttributeError) as e:
+                    why = repr(e)
+                if why:
+                    self.unusable.append((d.name, why[:200]))
+                else:
+                    self._usable.append(d)
+        return self._usable
 
     def schema(self, proto: M.Protocol) -> str:
         return getattr(self.mod, proto.name + "WriterBase").schema
